@@ -1,0 +1,51 @@
+//go:build verif
+
+package pool
+
+import (
+	"github.com/protolambda/zrnt/eth2/beacon/altair"
+	"github.com/protolambda/zrnt/eth2/beacon/common"
+)
+
+// Read-only accessors for the verification harness in /verif (build tag `verif`).
+// Nothing here is compiled into a normal build.
+
+// VerifSyncContrib is one stored subnet contribution together with the keys it is filed under.
+type VerifSyncContrib struct {
+	Root    common.Root
+	Subnet  uint64
+	Contrib *SubnetContrib
+}
+
+// VerifSyncSnapshot is the content of the three-slot window of a SyncCommitteePool.
+// Index 0 = previous slot, 1 = current slot, 2 = next slot.
+type VerifSyncSnapshot struct {
+	CurrentSlot common.Slot
+	MsgsNil     [3]bool
+	ContribsNil [3]bool
+	Msgs        [3][]*altair.SyncCommitteeMessage
+	Contribs    [3][]VerifSyncContrib
+}
+
+func (sp *SyncCommitteePool) VerifSnapshot() (out VerifSyncSnapshot) {
+	sp.Lock()
+	defer sp.Unlock()
+	out.CurrentSlot = sp.currentSlot
+	for i, msgs := range [3]SyncCommitteeMessages{sp.prevMsgs, sp.currentMsgs, sp.nextMsgs} {
+		out.MsgsNil[i] = msgs == nil
+		for _, m := range msgs {
+			out.Msgs[i] = append(out.Msgs[i], m)
+		}
+	}
+	for i, cs := range [3]SyncCommitteeContributions{sp.prevContribs, sp.currentContribs, sp.nextContribs} {
+		out.ContribsNil[i] = cs == nil
+		for root, subs := range cs {
+			for subnet, list := range subs {
+				for _, c := range list {
+					out.Contribs[i] = append(out.Contribs[i], VerifSyncContrib{Root: root, Subnet: subnet, Contrib: c})
+				}
+			}
+		}
+	}
+	return out
+}
